@@ -42,6 +42,17 @@ def dimension_of(fn: FuncInfo, e: ast.expr, assigns, depth=0) -> str:
         return res.pop() if len(res) == 1 else "?"
     if isinstance(e, (ast.List, ast.Tuple)) and len(e.elts) == 1 and norm_src(e.elts[0]) in ("self._template", "self.template"):
         return "T1"
+    if isinstance(e, ast.Subscript) and dimension_of(fn, e.value, assigns, depth + 1) == "R":
+        # quaternions[arange(K*T) // T]: rotation k repeated T times consecutively (the same table as np.repeat(quaternions, T, axis=0))
+        ix = e.slice
+        if isinstance(ix, ast.Name):
+            vals = assigns.get(ix.id, [])
+            ix = vals[0] if len(vals) == 1 else ix
+        if isinstance(ix, ast.BinOp) and isinstance(ix.op, ast.FloorDiv) and norm_src(ix.right) in ("self._n_templates", "n_templates", "ntmp") and \
+                isinstance(ix.left, ast.Call) and (dotted(ix.left.func) or "").split(".")[-1] == "arange" and len(ix.left.args) == 1 and \
+                norm_src(ix.left.args[0]) in ("self.niter", "self._n_rotations * self._n_templates", "self._n_templates * self._n_rotations", "len(self.quaternions) * self._n_templates"):
+            return "RT"
+        return "?"
     if isinstance(e, (ast.ListComp, ast.GeneratorExp)) and len(e.generators) == 1 and not e.generators[0].ifs:
         return dimension_of(fn, e.generators[0].iter, assigns, depth + 1)
     if isinstance(e, ast.Call):
@@ -422,13 +433,13 @@ def rank_clause(model, rep, funcs):
     assigns = local_assignments(f)
     rets = [n for n in walk_no_nested(f.node) if isinstance(n, ast.Return) and n.value is not None]
     retnames = {r.value.id for r in rets if isinstance(r.value, ast.Name)}
-    for n in walk_no_nested(f.node):
-        if isinstance(n, ast.Assign) and isinstance(n.targets[0], ast.Name) and n.targets[0].id in retnames:
-            v = n.value
-            rep.instance("A.rank", f.loc(n))
-            ok, det = _rank2(v)
-            rep.ob("A", f.anchor, "every path of normalize_rotations yields an (N, 4) array (rank 2), in the order of its input", ok, det, node=n, fn=f,
-                   clause="4 rotation set")
+    yielded = [(n, n.value) for n in walk_no_nested(f.node) if isinstance(n, ast.Assign) and isinstance(n.targets[0], ast.Name) and n.targets[0].id in retnames]
+    yielded += [(r, r.value) for r in rets if not isinstance(r.value, ast.Name)]  # `return <array>` on the path itself instead of `quats = <array>` ... `return quats`
+    for n, v in yielded:
+        rep.instance("A.rank", f.loc(n))
+        ok, det = _rank2(v)
+        rep.ob("A", f.anchor, "every path of normalize_rotations yields an (N, 4) array (rank 2), in the order of its input", ok, det, node=n, fn=f,
+               clause="4 rotation set")
     rep.floor("A.rank", 3, "(Rotation / list of Rotation or ranges / None paths)")
     for r in rets:
         okr = (isinstance(r.value, ast.Name) and r.value.id in assigns) or _rank2(r.value)[0]
